@@ -53,4 +53,10 @@ CHECKS = {
         "text": "Class representatives (<=3 atoms; thorough <=4) x all labelled graphs (<=3 atoms) over 3 node labels and 2 bond orders, plus an hcount family, are queried through GraphMatcherEngine.isomorphic/get_mappings (filter on/off, max_mappings), SubgraphMatch.subgraph_isomorphism/is_subgraph and the graph_morphism twins (use_filter on/off, induced/monomorphism, disjoint and overlapping node ids); verdicts, validity and existence of embeddings, and filter-independence are compared with brute force. All query histories of depth 2 (thorough: 3) over four engines with different attribute selections sharing four colliding graph objects are executed; the last answer must equal the same call on a fresh cache and the definition.",
         "note": "Containment for get_mappings is induced sub-graph isomorphism (the implementation's notion). In-place mutation of graphs between queries is documented as unsupported and not explored.",
     },
+    "C08": {
+        "ready": True, "engine": "E1+E3(order)",
+        "technique": "bounded-exhaustive enumeration of small labelled graphs x all node permutations x insertion orders x edge orientations x 4 back-ends; family-wide signature-collision search",
+        "text": "Class representatives with <=3 atoms (4 node labels) and 4 atoms (thorough: 5, and the symmetric families up to Q3/K33) are presented under every node permutation, several (thorough: all) insertion orders and both edge orientations to the four back-ends: the canonical graph must be numbered exactly 1..N and be an attribute-preserving relabelling, the signature deterministic (repeat, copy); for the exact back-end every presentation must give the identical canonical graph and signature (both copies of the module) and equal SynGraph objects; signatures of all graphs of the family are grouped and any signature shared by non-isomorphic graphs is a collision.",
+        "note": "Alphabet: 2 elements x hcount {0,1}, 2 bond orders, undirected graphs. Invariance is required of 'nauty' only, as the statement says.",
+    },
 }
